@@ -12,6 +12,14 @@ Correspondence (runs on every check):
     Lean class models; Covariance / Max / Min additionally on 1..3-row batches, d in {1,2,3}.
   * `spec`        the Lean `spec.*` oracles (TE/Spec/Agg.lean evaluated) vs the independent Python `Fraction`
     oracle of each definition below: the textbook the theorems talk about is the textbook tested here.
+  * `rounding-model`  the clause "to within rounding of the working precision" is a THEOREM in the standard model of floating-point
+    arithmetic (TE/Props/C07_Round.lean: error of a sum over ANY tree with ANY per-node rounding, of sums of rounded terms, of
+    ratios of such sums, of the class accumulators).  The stream feeds random and adversarial float32 / float64 inputs (alternating
+    signs, wide dynamic range, absorption, near-cancellation; lengths 1..4096) to the real torch.sum / sum / mean / Sum / Mean /
+    mean_squared_error / click_through_rate / weighted_calibration and checks the PROVED bound against exact Fraction references;
+    this measures the one assumption that ties the theorems to the code (torch's CPU + − × ÷ are correctly rounded IEEE operations
+    applied in some tree order).  `tolerance()` of mean / sum / mean_squared_error and the tiny-weight MSE cases of the conditioning
+    stream take their tolerance from those theorems (`proved_tolerance`, `rb_*`), not from a chosen constant.
 Every real-vs-model disagreement is classified with the Python oracle: real != definition => violation,
 otherwise broken correspondence.
 """
@@ -30,12 +38,21 @@ RULE = ("functional / class call on grid-valued (multiples of 1/8, exhaustive fo
         "targets, unequal sample counts), dyadic-random and float-random inputs of length 1..256, 1-D and 2-D, float32 and float64, "
         "weights in {1/2,1,2,3}; non-trivial = distinct (function, options, input) whose result is a finite number depending on "
         "at least two different sample values")
-MODELLED = ["IEEE rounding and conditioning: theorems are exact identities over the rationals; 'within rounding of the working "
-            "precision' is only sampled here with tolerance 2e-5 (float32) / 1e-9 (float64) relative to sum|terms| or the condition number",
+MODELLED = ["IEEE rounding: for sums, dot products, squared errors and ratios of such sums (mean, sum, Mean, Sum, mean_squared_error, "
+            "click_through_rate, weighted_calibration) 'within rounding of the working precision' is proved in the STANDARD MODEL "
+            "(|rnd x - x| <= u|x|, any summation tree, any per-node rounding: TE/Props/C07_Round.lean) and the tolerance is the proved bound; "
+            "that torch's CPU kernels are such operations in some tree order (no overflow / underflow, no fused or extended-precision "
+            "shortcuts that would be LESS accurate) is measured by the rounding-model stream, not proved",
+            "the other metrics (r2_score, covariance, wasserstein, auc) are compared with tolerance 2e-5 (float32) / 1e-9 (float64) relative "
+            "to sum|terms| or the condition number: sampled, not proved; the raw-moments total sum of squares of r2_score provably has NO "
+            "rounding bound relative to its value (TE.C07R.tss_raw_witness) - the recorded near-constant-target findings",
+            "log / exp / log10 / sqrt and linalg.eigvals carry no correctly-rounded guarantee: outside the rounding model",
             "log / exp / log10 are function parameters of the models; end values of PSNR, normalized entropy and perplexity are "
             "evaluated on IEEE doubles by the driver",
             "gaussian_frechet_distance: the eigenvalue term is not modelled (only a + b and the FAD moment bookkeeping)"]
-ASSUMPTIONS = ["one stream keeps one arity (1-D or (n,d)) for MeanSquaredError / R2Score",
+ASSUMPTIONS = ["torch's + - * / on CPU float32 / float64 tensors are correctly rounded IEEE operations (u = 2^-24 / 2^-53) and torch.sum adds "
+               "in SOME binary-tree order; no intermediate overflow / underflow (checked on every run by the rounding-model stream)",
+               "one stream keeps one arity (1-D or (n,d)) for MeanSquaredError / R2Score",
                "sample_weight of mean_squared_error is 1-D (the (n,1) broadcast is C18's subject)",
                "perplexity labels that are not ignored are non-negative",
                "signed zeros are not distinguished"]
@@ -275,6 +292,18 @@ def dtype_of(kw):
     return torch.float32
 
 
+class ProvedTol(Fr):
+    """a tolerance DERIVED from a theorem of TE/Props/C07_Round.lean: the admissible error is exactly `tol · scale`
+    (`rel = "scale"`, the oracle's Σ|terms| or Σ|terms|/Σweights) or `tol · |value|` (`rel = "value"`, sums of non-negative terms) —
+    no hand-chosen floor.  Compared in exact rational arithmetic."""
+    rel = "scale"
+
+    @classmethod
+    def of(cls, tol: Fr, rel: str, why: str):
+        t = cls(tol); t.rel = rel; t.why = why
+        return t
+
+
 def vals_close(a, b, tol, scale):
     """a: float from the real code; b: Fraction | float (nan/inf)."""
     bf = float(b)
@@ -282,6 +311,8 @@ def vals_close(a, b, tol, scale):
         return math.isnan(a) and math.isnan(bf)
     if math.isinf(a) or math.isinf(bf):
         return a == bf
+    if isinstance(tol, ProvedTol) and isinstance(b, (Fr, int)):
+        return abs(Fr(a) - b) <= Fr(tol) * (abs(b) if tol.rel == "value" else Fr(scale))
     return abs(a - bf) <= tol * max(1.0, abs(bf), float(scale))
 
 
@@ -298,7 +329,8 @@ def real_vs(real, vals, tol, scale, shape=None):
         return f"shape {tuple(real[1][0].shape)} vs {tuple(shape)}"
     for i, (a, b) in enumerate(zip(got, vals)):
         if not vals_close(a, b, tol, scale):
-            return f"[{i}] real {a!r} vs expected {b} (={float(b)!r}), tol {tol:g}*{float(max(1, scale)):g}"
+            return f"[{i}] real {a!r} vs expected {b} (={float(b)!r}), tol {float(tol):g}*{float(max(1, scale)):g}" + \
+                (f" [proved: {tol.why}; relative to the {tol.rel}]" if isinstance(tol, ProvedTol) else "")
     return None
 
 # ------------------------------------------------------------------ case generation
@@ -355,6 +387,11 @@ def cases_mean_sum(rng, tier):
             if rng.random() < 0.3 and n % 2 == 0:
                 kw = {k: (v.reshape(2, -1) if isinstance(v, torch.Tensor) else v) for k, v in kw.items()}
             yield fn, kw, (kind, n)
+        # PYTHON scalar weights that are not dyadic / not float32-representable: the total weight float(w)·n must keep the working
+        # precision (float64 inputs: a float32 denominator was the defect fixed by 075caf0)
+        for _ in range(12 if tier == "quick" else 80):
+            n = rng.choice([1, 2, 3, 8, 33, 100]); kind = rng.choice(["dyadic", "float"])
+            yield rng.choice(["mean", "sum"]), {"input": T(rand_vec(rng, n, dt, kind), dt), "weight": rng.choice([0.1, 0.3, 1 / 3, float(2 ** 24 + 1), 0.7])}, ("scalar-weight", n)
         # values held in an INTEGER tensor (counts, lengths) with fractional weights: the weights must not take the
         # dtype of the values anywhere on the way
         for idt in (torch.int64, torch.int32):
@@ -595,7 +632,74 @@ def model_name(fn):
     return fn
 
 
+def _exact_in(v, dt) -> bool:
+    """the Python number v converts to dtype dt without rounding"""
+    return float(torch.tensor(float(v), dtype=dt)) == float(v)
+
+
+def proved_tolerance(fn, kw):
+    """Tolerance of a sum / ratio metric DERIVED from the rounding-model theorems (TE/Props/C07_Round.lean), or None when the case
+    lies outside their hypotheses (other dtypes, integer inputs, weights that are not non-negative with positive total, values that
+    are not exactly the floats the model sees) — then the hand-chosen constant TOL applies as before.
+    Validity of the underlying assumption (torch's CPU arithmetic is the standard model in some tree order) is what
+    `rounding_model_stream` measures on every run."""
+    dt = dtype_of(kw)
+    u = U_ROUND.get(dt)
+    try:
+        if u is None:
+            return None
+        if fn in ("mean", "sum"):
+            x = kw["input"]; w = kw.get("weight", 1.0); n = x.numel()
+            if x.dtype != dt or n == 0:
+                return None
+            if isinstance(w, torch.Tensor):
+                if w.dtype != dt or w.shape != x.shape:
+                    return None
+                if fn == "sum":                     # Σ fl(w·x) over any tree: n − 1 additions deep at most, one product per term
+                    return ProvedTol.of(rb_gamma(u, n - 1 + 1), "scale", "TE.C07R.wsum_error + depth_le_size + pow_bound_gamma")
+                ws = fr(w)
+                if min(ws) < 0 or sum(ws) < Fr(1, 10 ** 9):
+                    return None
+                return ProvedTol.of(rb_quot_const(u, n - 1 + 1, n - 1), "scale", "TE.C07R.wmean_error (exact constant: ratio_error_exact)")
+            if isinstance(w, bool) or not isinstance(w, (int, float)):
+                return None
+            # python scalar weight, possibly not representable in dt (0.1, 1/3, 2**24+1): its cast into the tensor operation and
+            # the casts of the total weight `torch.tensor(float(w)·n)` are counted as roundings
+            kc, kd = _scalar_roundings(w, n, dt)
+            if fn == "sum":                         # (input · ŵ).sum()
+                return ProvedTol.of(rb_gamma(u, n - 1 + 1 + kc), "scale", "TE.C07R.wsum_error / terms_sum_error_gamma")
+            if not w > 0:
+                return None
+            # mean, scalar weight: fl(ŵ · fl-Σx) / tensor(float(w)·n)
+            return ProvedTol.of(rb_quot_const(u, n - 1 + 1 + kc, kd), "scale", "TE.C07R.tree_sum_error_n + ratio_error_gamma")
+        if fn == "mean_squared_error":
+            x, y, w = kw["input"], kw["target"], kw.get("sample_weight")
+            if x.dtype != dt or y.dtype != dt or x.shape != y.shape or x.ndim not in (1, 2) or x.numel() == 0:
+                return None
+            n = x.shape[0]; d = 1 if x.ndim == 1 else x.shape[1]
+            if w is None:
+                c = rb_quot_const(u, n - 1 + 3, 0)                      # Σ fl(fl(y−x)²) / n
+            else:
+                if w.dtype != dt or w.ndim != 1 or w.shape[0] != n:
+                    return None
+                ws = fr(w)
+                if min(ws) < 0 or sum(ws) < Fr(2) ** -52:                # the eps guard of the division must be inactive
+                    return None
+                c = rb_quot_const(u, n - 1 + 4, n - 1)                  # Σ fl(fl(fl(y−x)²)·w) / Σ w
+            if kw.get("multioutput", "uniform_average") == "uniform_average" and d > 1:
+                # mean over the d per-output values, each within relative c: tree sum (depth ≤ d − 1) of perturbed non-negative
+                # terms, then one rounded division by d            [TE.C07R.terms_sum_error_e, TE.C07R.rnd_after_error]
+                c = (1 + rb_gamma(u, d - 1)) * (1 + c) * (1 + u) - 1
+            return ProvedTol.of(c, "value", "TE.C07R.mse_rel_error (non-negative terms: relative to the value)")
+    except (ValueError, KeyError, TypeError, AttributeError):
+        return None
+    return None
+
+
 def tolerance(fn, kw):
+    pt = proved_tolerance(fn, kw)
+    if pt is not None:
+        return pt
     dt = dtype_of(kw)
     tol = TOL[dt]
     if fn in ("binary_normalized_entropy", "perplexity", "peak_signal_noise_ratio", "peak_signal_noise_ratio.arg"):
@@ -669,6 +773,8 @@ def check_functional(rep: Report, cases, stream="functional", with_spec=True):
         rep.case(nontrivial_key=(fn, repr(kw_json(fn, kw))) if nontrivial(fn, kw, exp) else None,
                  sample={"request": lines[idx][:300], "model": o[:120], "real": str(real[1])[:120]} if idx % 4001 == 0 else None)
         tol = tolerance(fn, kw)
+        if fn in ("mean", "sum", "mean_squared_error") and real[0] == "ok":
+            rep.count(f"tolerance:{'proved-bound' if isinstance(tol, ProvedTol) else 'chosen-constant'}:{fn}")
         msg = None
         if model[0] == "bad":
             msg = f"driver: {model[1]}"
@@ -1095,19 +1201,29 @@ COND_MSE_FORMS = ("mean_squared_error", "MeanSquaredError")
 def cond_mse_verdict(name, xs, ys, ws, dt):
     """weighted MSE with TINY positive sample weights (importance weights of order 1e-9: total weight far below the float32
     eps, far above the float64 eps that guards the division): the value must not depend on the scale of the weights.
-    (holds, value returned, exact Σw·(x−y)²/Σw evaluated on the very floats fed to torch)"""
+    (holds, value returned, exact Σw·(x−y)²/Σw evaluated on the very floats fed to torch); `holds` = within the bound PROVED in the
+    standard rounding model (TE/Props/C07_Round.lean) — ≈ 1e-6 relative in float32, 2e-15 in float64 for these lengths, where the
+    hand-chosen constants were 1e-4 / 1e-9"""
     x, y, w = (torch.tensor(v, dtype=dt) for v in (xs, ys, ws))
     fx, fy, fw = ([Fr(float(v)) for v in t.tolist()] for t in (x, y, w))
-    ref = float(sum(c * (a - b) ** 2 for a, b, c in zip(fx, fy, fw)) / sum(fw))
+    ref = sum(c * (a - b) ** 2 for a, b, c in zip(fx, fy, fw)) / sum(fw)
+    n = len(xs)
     if name == "mean_squared_error":
         got = float(F.mean_squared_error(x, y, sample_weight=w))
+        # tolerance DERIVED, not chosen: Σ fl(fl(fl(y−x)²)·w) over any tree (n − 1 additions deep at most, 4 roundings per term) divided by
+        # Σ w (n − 1 deep), non-negative terms ⇒ the error is relative to the value itself      [TE.C07R.mse_rel_error / ratio_error_exact]
+        c = rb_quot_const(U_ROUND[dt], n - 1 + 4, n - 1)
     else:
-        m = M.MeanSquaredError(); h = len(xs) // 2
+        m = M.MeanSquaredError(); h = n // 2
         m.update(x[:h], y[:h], sample_weight=w[:h]); m.update(x[h:], y[h:], sample_weight=w[h:])
         got = float(m.compute())
-    # the class accumulates in float32 whatever the input dtype (a recorded C19 matter): float32-level tolerance there
-    tol = 1e-4 if (dt == torch.float32 or name == "MeanSquaredError") else 1e-9
-    return abs(got - ref) <= tol * max(abs(ref), 1e-12), got, ref
+        # the class accumulates in float32 whatever the input dtype (a recorded C19 matter): float32 roundoff there; two updates, each `+=`
+        # of a (possibly float64) batch statistic into the float32 state counted as two roundings (add, cast)
+        #                                                                   [TE.C07R.stream_terms_error + quot_error, RSum_weaken]
+        nb = max(h, n - h)
+        c = rb_quot_const(U_ROUND[torch.float32], nb - 1 + 4 + 2 * 2, nb - 1 + 2 * 2)
+    holds = math.isfinite(got) and abs(Fr(got) - ref) <= c * ref
+    return holds, got, float(ref)
 
 
 def conditioning_stream(rep: Report, rng: Rng):
@@ -1177,6 +1293,273 @@ def conditioning_stream(rep: Report, rng: Rng):
             break
     rep.streams["conditioning"] = {"rounds": reps, "violations": bad}
 
+# ------------------------------------------------------------------ rounding-model stream (TE/Props/C07_Round.lean)
+#
+# The Lean theorems bound the error of sums / sums of rounded terms / ratios of such sums in the STANDARD MODEL of
+# floating-point arithmetic (every + − × ÷ is the exact operation followed by a rounding with relative error ≤ u), for EVERY
+# order of the additions (any binary tree, any per-node rounding).  What ties them to the code is one assumption about the
+# trusted base: "torch's + − × ÷ on CPU tensors are correctly rounded IEEE operations (u = 2⁻²⁴ float32, 2⁻⁵³ float64),
+# applied in SOME tree order, without overflow / underflow".  This stream MEASURES that assumption on every run: it feeds
+# random and adversarial inputs (alternating signs, wide dynamic range, absorption, near-cancellation; lengths 1 … 4096) to
+# the real torch.sum / sum / mean / Sum / Mean / mean_squared_error / click_through_rate / weighted_calibration and checks
+# the PROVED bound against the exact Fraction value of the definition.
+
+U_ROUND = {torch.float32: Fr(1, 2 ** 24), torch.float64: Fr(1, 2 ** 53)}      # unit roundoff of IEEE round-to-nearest
+RM_FNS = ("torch.sum", "sum", "mean", "Sum", "Mean", "mean_squared_error", "click_through_rate", "weighted_calibration")
+RM_KINDS = ("uniform", "positive", "alternating", "wide", "absorb", "near-cancel")
+RM_SCALARS = (0.1, 0.3, 1 / 3, 0.7, float(2 ** 24 + 1), 1e-3, 2.5, 3.0, 0.5)      # python scalar weights: mostly NOT float32-representable
+
+
+def rb_gamma(u: Fr, k: int) -> Fr:
+    """γ_k = k·u / (1 − k·u)  ≥  (1+u)^k − 1  for k·u < 1        [theorem TE.C07R.pow_bound_gamma]
+    (within a factor 2 of it: (1+u)^k − 1 ≤ 2·k·u for 2·k·u ≤ 1  [TE.C07R.pow_bound])"""
+    k = max(int(k), 0)
+    if not k * u < 1:
+        raise ValueError("k·u ≥ 1: outside the hypotheses of pow_bound_gamma")
+    return k * u / (1 - k * u)
+
+
+def rb_sum(u: Fr, n: int, k: int, A: Fr) -> Fr:
+    """n addends, each carrying ≤ k roundings of its own, summed in ANY order with any per-node rounding:
+    |v − Σf| ≤ γ_d·Σ|f| for any d ≥ depth + k                     [TE.C07R.terms_sum_error_gamma; k = 0: tree_sum_error_any]
+    and depth ≤ n − 1 for every tree on n leaves, so d = n − 1 + k  [TE.C07R.depth_le_size, tree_sum_error_n]"""
+    return rb_gamma(u, max(n - 1, 0) + k) * A
+
+
+def rb_quot_const(u: Fr, a: int, b: int) -> Fr:
+    """the constant of [TE.C07R.ratio_error_gamma] (algebraic core: [TE.C07R.quot_error]): numerator within γ_a·Σ|f|, denominator
+    (non-negative terms, positive total) within γ_b·Σg with γ_b < 1, rounded division:
+    |q̂ − Σf/Σg| ≤ (u + (1+u)·(γ_a + γ_b)/(1 − γ_b)) · Σ|f|/Σg        (≤ (5m+1)·u·Σ|f|/Σg for a, b ≤ m, 4·m·u ≤ 1  [TE.C07R.ratio_error])
+    a, b = (number of additions on the longest path, at most n − 1) + (roundings per term)."""
+    eN, eD = rb_gamma(u, a), rb_gamma(u, b)
+    if not eD < 1:
+        raise ValueError("γ_b ≥ 1: outside the hypotheses of ratio_error_gamma")
+    return u + (1 + u) * (eN + eD) / (1 - eD)
+
+
+def rm_vec(rng: Rng, n: int, dt, kind: str, E: int = 30) -> torch.Tensor:
+    """n values of dtype dt (kinds: see RM_KINDS); |exponents| ≤ E so that no product under/overflows"""
+    if kind == "uniform":
+        v = [rng.uniform(-4, 4) for _ in range(n)]
+    elif kind == "positive":
+        v = [rng.uniform(0.01, 1) for _ in range(n)]
+    elif kind == "alternating":                                   # Σ ≈ 0, Σ|x| large: heavy cancellation
+        m = 2.0 ** rng.randint(0, min(E, 12))
+        v = [(-1) ** i * m * (1 + rng.random() / 1024) for i in range(n)]
+    elif kind == "wide":                                          # wide dynamic range, mixed signs
+        v = [rng.choice([-1, 1]) * 2.0 ** rng.randint(-E, E) * rng.uniform(1, 2) for _ in range(n)]
+    elif kind == "absorb":                                        # one huge addend swallows the small ones in a sequential sum
+        big = 2.0 ** min(E, 24 if dt == torch.float32 else 53)
+        v = [big] + [rng.choice([1.0, 1.0, 0.5, 3.0]) for _ in range(max(n - 2, 0))] + ([-big] if n > 1 else [])
+    elif kind == "near-cancel":                                   # x, −x(1+δ) pairs
+        v = []
+        while len(v) < n:
+            x = rng.uniform(1, 2) * 2.0 ** rng.randint(-4, 4)
+            v += [x, -x * (1 + rng.random() / 4096)]
+        v = v[:n]
+    else:
+        raise KeyError(kind)
+    return torch.tensor(v, dtype=torch.float64).to(dt)
+
+
+def rm_pos(rng: Rng, n: int, dt, wide: bool) -> torch.Tensor:
+    """n positive weights (float32-representable, so that a `.type(torch.float)` on the way is exact)"""
+    v = [rng.uniform(1, 2) * 2.0 ** rng.randint(-12, 12) if wide else rng.choice([0.25, 0.5, 1.0, 2.0, 3.0, rng.uniform(0.1, 2)]) for _ in range(n)]
+    return torch.tensor(v, dtype=torch.float32).to(dt)
+
+
+def _scalar_roundings(w, n: int, dt):
+    """a PYTHON scalar weight w on its way through _mean_update / _sum_update with an n-element tensor of dtype dt:
+    (roundings of the weight itself when it enters a dt tensor operation, roundings of the total weight
+    `torch.tensor(float(w) * n)` — the double product, then the cast to the tensor's dtype)"""
+    kc = 0 if _exact_in(w, dt) else 1
+    kd = (0 if Fr(float(w) * n) == Fr(float(w)) * n else 1) + (0 if dt == torch.float64 or _exact_in(float(w) * n, torch.float32) else 1)
+    return kc, kd
+
+
+def _rm_weight(w, x: torch.Tensor, dt):
+    """weight spec of a case (None = the default 1.0 | python scalar | list = tensor) ->
+    (argument for torch or None, exact per-element weights, roundings of the weight, roundings of a scalar total weight)"""
+    n = x.numel()
+    if w is None:
+        return None, [Fr(1)] * n, 0, 0
+    if isinstance(w, (int, float)):
+        kc, kd = _scalar_roundings(w, n, dt)
+        return float(w), [Fr(float(w))] * n, kc, kd
+    t = torch.tensor(w, dtype=torch.float64).to(dt)
+    return t, fr(t), 0, None
+
+
+def rm_eval(fn: str, dt, d: dict):
+    """run the REAL function on the tensors in `d` and return (got: float, ref: Fraction = the definition evaluated exactly on the
+    very floats fed to torch, bound: Fraction = the proved bound on |got − ref|).  Raises ValueError outside the hypotheses.
+    Weights: None (default), a python scalar (possibly NOT representable in the tensor's dtype: 0.1, 1/3, 2**24+1), or a list (tensor)."""
+    u = U_ROUND[dt]
+    tens = lambda key: None if d.get(key) is None else torch.tensor(d[key], dtype=torch.float64).to(dt)
+    if fn in ("Sum", "Mean"):
+        # class accumulators: float64 states, one tree sum per update  [TE.C07R.stream_terms_error, TE.C07R.mean_class_error];
+        # float32 batch statistics accumulated by float64 `+=` are admissible for u = u(dt)  [TE.C07R.mixed_stream_error]
+        bx = [torch.tensor(b, dtype=torch.float64).to(dt) for b in d["batches"]]
+        ws = [_rm_weight(w, x, dt) for w, x in zip(d["weights"], bx)]
+        split = d.get("split")
+        objs = [getattr(M, fn)(), getattr(M, fn)()]
+        for i, (x, (wa, _, _, _)) in enumerate(zip(bx, ws)):
+            o = objs[0 if split is None or i < split else 1]
+            o.update(x) if wa is None else o.update(x, weight=wa)
+        if split is not None:
+            objs[0].merge_state([objs[1]])
+        got = float(objs[0].compute())
+        terms = [wi * xi for x, (_, we, _, _) in zip(bx, ws) for xi, wi in zip(fr(x), we)]
+        N, A = sum(terms), sum(abs(t) for t in terms)
+        dmax = max(x.numel() for x in bx) - 1
+        deep = dmax + len(bx) + (1 if split is not None else 0)       # max batch depth + #updates (+ the merge)
+        a = deep + 1 + max(kc for _, _, kc, _ in ws)                    # + one product per term (+ the cast of a scalar weight)
+        if fn == "Sum":
+            return got, N, rb_gamma(u, a) * A
+        D = sum(sum(we) for _, we, _, _ in ws)
+        if D <= 0 or any(min(we) < 0 for _, we, _, _ in ws):
+            raise ValueError("weights must be non-negative with positive total")
+        b = deep + max(kd or 0 for _, _, _, kd in ws)
+        return got, N / D, rb_quot_const(u, a, b) * A / D
+    x = tens("x"); n = x.numel(); xs = fr(x)
+    if fn == "torch.sum":
+        return float(torch.sum(x)), sum(xs), rb_sum(u, n, 0, sum(abs(v) for v in xs))
+    wa, ws, kc, kd = _rm_weight(d.get("w"), x, dt)
+    if fn == "sum":
+        terms = [a * b for a, b in zip(ws, xs)]
+        got = float(F.sum(x, wa)) if wa is not None else float(F.sum(x))
+        return got, sum(terms), rb_sum(u, n, 1 + kc, sum(abs(t) for t in terms))               # [TE.C07R.wsum_error]
+    if fn == "mean":
+        terms, D = [p * q for p, q in zip(ws, xs)], sum(ws)
+        if min(ws) < 0 or D <= 0:
+            raise ValueError("weights must be non-negative with positive total")
+        if kd is None:                                                                             # tensor weights: Σ fl(w·x) / Σ w
+            got, a, b = float(F.mean(x, wa)), n - 1 + 1, n - 1
+        else:                                                                                      # fl(ŵ · fl-Σx) / tensor(float(w)·n)
+            got, a, b = (float(F.mean(x)) if wa is None else float(F.mean(x, wa))), n - 1 + 1 + kc, kd
+        return got, sum(terms) / D, rb_quot_const(u, a, b) * sum(abs(t) for t in terms) / D       # [TE.C07R.wmean_error]
+    if isinstance(wa, float):
+        raise ValueError(f"{fn} takes a weight tensor")
+    ws = None if wa is None else ws; w = wa
+    if fn == "mean_squared_error":
+        y = tens("y"); ys = fr(y)
+        if ws is None:
+            got, terms, D, a, b = float(F.mean_squared_error(x, y)), [(q - p) ** 2 for p, q in zip(xs, ys)], Fr(n), n - 1 + 3, 0
+        else:
+            got = float(F.mean_squared_error(x, y, sample_weight=w))
+            terms, D, a, b = [c * (q - p) ** 2 for p, q, c in zip(xs, ys, ws)], sum(ws), n - 1 + 4, n - 1
+            if min(ws) < 0 or D < Fr(2) ** -52:
+                raise ValueError("weights must be non-negative with a total above the eps guard")
+        return got, sum(terms) / D, rb_quot_const(u, a, b) * sum(terms) / D                       # [TE.C07R.mse_rel_error]: relative to the value
+    if fn == "click_through_rate":
+        # the code casts the weights (and, without weights, the click total) to float32 whatever the input dtype: float32 roundoff
+        u = U_ROUND[torch.float32]
+        if ws is None:
+            got, terms, D, a, b = float(F.click_through_rate(x)), xs, Fr(n), n - 1 + 2, 1
+        else:
+            got, terms, D, a, b = float(F.click_through_rate(x, w)), [p * q for p, q in zip(ws, xs)], sum(ws), n, n - 1 + 1
+            if min(ws) < 0 or D < Fr(2) ** -100:
+                raise ValueError("weights must be non-negative, total ≥ 2^-100 (so that `+ tiny` is absorbed)")
+        return got, sum(terms) / D, rb_quot_const(u, a, b) * sum(abs(t) for t in terms) / D       # [TE.C07R.wmean_error]
+    if fn == "weighted_calibration":
+        t = tens("t"); ts = fr(t)
+        if ws is None:
+            got, num, den = float(F.weighted_calibration(x, t)), xs, ts
+        else:
+            got, num, den = float(F.weighted_calibration(x, t, w)), [p * q for p, q in zip(ws, xs)], [p * q for p, q in zip(ws, ts)]
+        D = sum(den)
+        if min(den) < 0 or D <= 0:
+            raise ValueError("denominator terms must be non-negative with positive total")
+        return got, sum(num) / D, rb_quot_const(u, n, n) * sum(abs(v) for v in num) / D            # [TE.C07R.wratio_error]
+    raise KeyError(fn)
+
+
+def rm_verdict(fn, dt, d):
+    """(holds, got, ref, bound, |got − ref| / bound as a float)"""
+    got, ref, bound = rm_eval(fn, dt, d)
+    if not math.isfinite(got):
+        return False, got, ref, bound, math.inf
+    err = abs(Fr(got) - ref)
+    return err <= bound, got, ref, bound, (float(err / bound) if bound > 0 else (0.0 if err == 0 else math.inf))
+
+
+def rm_cases(rng: Rng, tier: str):
+    """(fn, dtype, data dict, kind, n)"""
+    lens = [1, 2, 3, 5, 8, 17, 64, 100, 256, 1000, 4096]
+    reps = 1 if tier == "quick" else 6
+    tl = lambda t: t.to(torch.float64).tolist()
+    for dt in (torch.float32, torch.float64):
+        for kind in RM_KINDS:
+            for n in lens:
+                for _ in range(reps if n <= 256 or tier != "quick" else 1):
+                    wide = rng.random() < 0.5
+                    x = rm_vec(rng, n, dt, kind, E=40)
+                    yield "torch.sum", dt, {"x": tl(x)}, kind, n
+                    x = rm_vec(rng, n, dt, kind, E=20)
+                    w = rm_pos(rng, n, dt, wide)
+                    sw = rm_vec(rng, n, dt, rng.choice(["uniform", "wide"]), E=12)               # signed weights are fine for a SUM
+                    yield "sum", dt, {"x": tl(x), "w": tl(rng.choice([w, sw]))}, kind, n
+                    yield "mean", dt, {"x": tl(x), "w": tl(w) if rng.random() < 0.7 else None}, kind, n
+                    # PYTHON scalar weights, incl. values that are not representable in float32 / not dyadic: the total weight
+                    # `float(w)·n` must be as accurate as the working precision (float64 inputs: float64 — a float32 denominator there
+                    # was the defect fixed by 075caf0; float32 inputs: the cast of the weight and of the total count as roundings)
+                    sc = rng.choice(RM_SCALARS)
+                    yield "mean", dt, {"x": tl(x), "w": sc}, kind, n
+                    yield "sum", dt, {"x": tl(x), "w": rng.choice(RM_SCALARS)}, kind, n
+                    y = rm_vec(rng, n, dt, rng.choice(["uniform", kind]), E=10)
+                    x2 = rm_vec(rng, n, dt, kind, E=10) if rng.random() < 0.6 else (y.to(torch.float64) * (1 + 2.0 ** -10) + 2.0 ** -8).to(dt)
+                    yield "mean_squared_error", dt, {"x": tl(x2), "y": tl(y), "w": tl(w) if rng.random() < 0.6 else None}, kind, n
+                    clicks = torch.tensor([float(rng.random() < 0.3) for _ in range(n)], dtype=dt) if rng.random() < 0.5 else x
+                    yield "click_through_rate", dt, {"x": tl(clicks), "w": tl(w) if rng.random() < 0.7 else None}, kind, n
+                    tpos = torch.tensor([float(rng.random() < 0.4) for _ in range(n - 1)] + [1.0], dtype=dt) if rng.random() < 0.5 else rm_pos(rng, n, dt, False)
+                    yield "weighted_calibration", dt, {"x": tl(x), "t": tl(tpos), "w": tl(w) if rng.random() < 0.7 else None}, kind, n
+            # class accumulators: several updates of different sizes, optionally two shards merged
+            for _ in range(4 * reps):
+                nb = rng.randint(1, 6)
+                sizes = [rng.choice([1, 2, 7, 64, 300, 1000]) for _ in range(nb)]
+                batches = [rm_vec(rng, k, dt, kind, E=20) for k in sizes]
+                weights = [(tl(rm_pos(rng, k, dt, rng.random() < 0.5)) if rng.random() < 0.6 else None) if rng.random() < 0.7 else rng.choice(RM_SCALARS)
+                           for k in sizes]
+                split = rng.randint(1, nb) if nb > 1 and rng.random() < 0.4 else None
+                for c in ("Sum", "Mean"):
+                    yield c, dt, {"batches": [tl(b) for b in batches], "weights": weights, "split": split}, kind, sum(sizes)
+
+
+def rounding_model_stream(rep: Report, rng: Rng):
+    worst: dict = {}
+    ncase = nbad = 0
+    for fn, dt, d, kind, n in rm_cases(rng, rep.tier):
+        dn = str(dt).replace("torch.", "")
+        try:
+            holds, got, ref, bound, ratio = rm_verdict(fn, dt, d)
+        except ValueError as e:                                   # generated outside the theorem's hypotheses: not a case
+            rep.count("rounding-model:outside-hypotheses"); rep.notes.append(f"rounding-model {fn}: {e}") if len(rep.notes) < 5 else None
+            continue
+        ncase += 1
+        rep.count(f"rounding-model:{fn}"); rep.count(f"rounding-model:kind:{kind}"); rep.count(f"rounding-model:dtype:{dn}")
+        rep.count("rounding-model:n:" + ("1" if n == 1 else "2-8" if n <= 8 else "9-256" if n <= 256 else "257-4096" if n <= 4096 else ">4096"))
+        rep.case(nontrivial_key=("round", fn, dn, kind, n, repr(got)) if n > 1 and ref != 0 else None,
+                 sample={"rounding-model": fn, "dtype": dn, "kind": kind, "n": n, "got": got, "exact": float(ref), "proved_bound": float(bound),
+                         "err_over_bound": ratio} if ncase % 997 == 1 else None)
+        key = f"{fn}/{dn}"
+        worst[key] = max(worst.get(key, 0.0), ratio)
+        if holds:
+            continue
+        nbad += 1
+        replay = {"kind": "round-model", "fn": fn, "dtype": dn, "data": d, "got": got, "exact": str(ref), "bound": str(bound)}
+        what = (f"{fn} ({dn}, {kind}, n={n}) returns {got!r}; the definition evaluated exactly on the same floats is {float(ref)!r}; "
+                f"|difference| = {ratio:.3g} × the bound proved in the standard rounding model ({float(bound):.3g})")
+        if fn == "torch.sum":
+            # not a torcheval metric: the ASSUMPTION of the trusted base (correctly rounded operations in some tree order) failed
+            rep.broke("assumption:torch-cpu-arithmetic-is-the-standard-model", what, replay)
+        else:
+            rep.violation(f"C07|{fn}|{dn}|outside-proved-rounding-bound", what, replay)
+        if nbad > 6:
+            break
+    rep.streams["rounding-model"] = {"cases": ncase, "outside_bound": nbad,
+                                     "worst_error_over_proved_bound": {k: float(f"{v:.3g}") for k, v in sorted(worst.items())}}
+
+
 def run(rep: Report):
     rng = Rng(rep.seed * 1000003 + 7)
     check_functional(rep, all_cases(rng, rep.tier), "functional")
@@ -1184,6 +1567,7 @@ def run(rep: Report):
     cov_streams(rep, rng)
     fad_streams(rep, rng)
     conditioning_stream(rep, Rng(rep.seed * 7919 + 13))
+    rounding_model_stream(rep, Rng(rep.seed * 104729 + 29))
 
 
 def search(rep: Report):
@@ -1225,7 +1609,8 @@ def _batches(r):
 def replay(payload) -> bool:
     """True iff the property holds on the recorded input; one oracle per payload kind (the one that raised the violation):
     functional -> definition_verdict; cov-stream -> cov_stream_verdict; minmax-stream -> minmax_stream_verdict;
-    fad-moments -> fad_moments_verdict; cond-ne -> cond_ne_verdict; cond-cov -> cond_cov_verdict."""
+    fad-moments -> fad_moments_verdict; cond-ne -> cond_ne_verdict; cond-cov -> cond_cov_verdict; cond-mse -> cond_mse_verdict;
+    round-model -> rm_verdict (the bound proved in TE/Props/C07_Round.lean)."""
     if not isinstance(payload, dict) or payload.get("kind", "failing-input") != "failing-input":
         _nothing(f"payload kind {payload.get('kind') if isinstance(payload, dict) else None!r} carries no concrete input")
     r = payload.get("replay")
@@ -1301,4 +1686,15 @@ def replay(payload) -> bool:
         if not holds:
             print(f"replay: worst covariance entry error {worst:.3g} (tolerance {tol:.3g})")
         return bool(holds)
-    _nothing(f"replay kind {kind!r} is not one of functional / cov-stream / minmax-stream / fad-moments / cond-ne / cond-cov / cond-mse")
+    if kind == "round-model":
+        if r.get("fn") not in RM_FNS or not isinstance(r.get("data"), dict):
+            _nothing("round-model payload without the function name and the tensors fed to it")
+        dt = _dtype_of_name(r.get("dtype"))
+        try:
+            holds, got, ref, bound, ratio = rm_verdict(r["fn"], dt, r["data"])
+        except (ValueError, KeyError, TypeError) as e:
+            _nothing(f"the recorded input is outside the hypotheses of the rounding-model theorems ({e!r})")
+        if not holds:
+            print(f"replay: {r['fn']} returns {got!r}, exact definition {float(ref)!r}: |difference| = {ratio:.3g} × the proved rounding bound {float(bound):.3g}")
+        return bool(holds)
+    _nothing(f"replay kind {kind!r} is not one of functional / cov-stream / minmax-stream / fad-moments / cond-ne / cond-cov / cond-mse / round-model")
